@@ -32,7 +32,7 @@ func init() {
 		}
 		p.WaitHeavy = true
 		p.AckRelock = true // in 10% of the scripts (open known finding relock-with-require-ack)
-		p.AckData = os.Getenv("VERIF_C11_DATA") != ""
+		p.AckData = os.Getenv("VERIF_C11_NODATA") == "" // value operations on require-ack requests: the rollback of a failed one must undo the value change
 		m["C11"] = &vfCoreProp{Prop: "C11", Profile: p, Quick: 3000, Thorough: 100000,
 			Rule: "case i = PRNG script splitmix(seed,'C11',i) on a stand-alone leader (acknowledgement = own log flush): 45% of the lock requests carry the require-ack flag (fresh grants and grants from the wait queue, with and without value operations); operations, ticks (wait time-out), unlock-first / cancel-wait and requests for the pending LockId are injected at the entry of the acknowledgement handler; in 4% of the steps the append file's descriptor is closed so that the log write fails (later healed by a rotation); non-trivial = at least one require-ack grant completed and one was rolled back or probed while pending; distinct = hash of the reply trace",
 			Nontrivial: func(st map[string]int64) bool {
@@ -48,7 +48,8 @@ func init() {
 				case "C03":
 					return true
 				case "C15":
-					return f.Clause == "ack-reply-value" || f.Clause == "malformed-value" || (f.Clause == "reply-value" && strings.Contains(f.Detail, "rollback of"))
+					// (which value the SUCCED of an acknowledged request carries is C15's matter, not C11's)
+					return f.Clause == "malformed-value" || (f.Clause == "reply-value" && strings.Contains(f.Detail, "rollback of"))
 				case "C17":
 					return f.Clause == "structure" || strings.HasPrefix(f.Clause, "drain-") || strings.HasPrefix(f.Clause, "state-")
 				}
